@@ -28,7 +28,7 @@ _OB = re.compile(r"^\s*//\s*@ob\s+(.*)$")
 _CL = re.compile(r"^\s*//\s*@clause\s+(.*)$")
 _FN = re.compile(r"^\s*//\s*@fns\s+(.*)$")
 _BOUND = re.compile(r"^\s*//\s*@bound\s+(.*)$")
-_FNDEF = re.compile(r"^\s*(?:pub\s+)?fn\s+([A-Za-z0-9_]+)\s*\(")
+_FNDEF = re.compile(r"^\s*(?:(?:pub\s+)?fn\s+([A-Za-z0-9_]+)\s*\(|[a-z_]+!\(\s*([A-Za-z0-9_]+)\s*,)")
 
 
 def kani_units():
@@ -92,8 +92,9 @@ def parse_harness_file(unit):
         m = _FNDEF.match(line)
         if m:
             cur["engine"] = "kani"
-            cur["harness"] = m.group(1)
-            cur["full_name"] = unit["mod_path"] + "::" + m.group(1)
+            hname = m.group(1) or m.group(2)
+            cur["harness"] = hname
+            cur["full_name"] = unit["mod_path"] + "::" + hname
             cur["pkg"] = unit["pkg"]
             cur["unit"] = unit["harness"]
             cur["src_line"] = ln
